@@ -942,7 +942,7 @@ def run(ctx):
     run_batch(ctx, 'history-fixed-universe', hs)
 
     # ---- random universes
-    n = ctx.scale(quick=40, thorough=400)
+    n = ctx.scale(quick=36, thorough=360)
     hs = []
     for i in range(n):
         uni, shape = gen_universe(rng)
